@@ -46,6 +46,8 @@ MIN_LEN = {
 }
 
 
+EXTRA_COMBINATIONS = {'AnnAssign': [[('node.target/kind', 'Attribute'), ('node.value/present', 'False')]]}
+
 # blocks whose last statement is also generated as a real `return` / `raise` (visited by supp's own visit method, not sunk)
 ESCAPING_LAST = {('Try', 'body')}
 
@@ -261,6 +263,16 @@ def _shapes_for(cls, tier):
             b = ShapeBuilder({key: v}, 'max')
             r = b.node(cls, 'node')
             out.append(('%s=%s' % ('/'.join(str(k) for k in key), v), r, b))
+    # combinations that matter on their own (also in the quick tier): an attribute target with no value is a bare annotation
+    for combo in EXTRA_COMBINATIONS.get(cls, []):
+        chosen = {}
+        for (k1, v1) in singles:
+            for (frag, val) in combo:
+                if frag == '/'.join(str(k) for k in k1) and str(v1) == val:
+                    chosen[k1] = v1
+        if len(chosen) == len(combo):
+            b = ShapeBuilder(chosen, 'max')
+            out.append((' & '.join('%s=%s' % ('/'.join(str(k) for k in k1), v1) for k1, v1 in chosen.items()), b.node(cls, 'node'), b))
     if tier == 'thorough':
         import itertools
         n = 0
@@ -627,7 +639,13 @@ class Extractor(object):
                 for o in v:
                     if isinstance(o, Obj) and o.cls.name in ('Flow', 'LoopFlow'):
                         registered.add(rtok(o))
-        ps.top_state = {'global_names': gn, 'registered': registered}
+        attr_targets = set()
+        for v in top.attrs.values():
+            if isinstance(v, list):
+                for o in v:
+                    if isinstance(o, tuple):
+                        attr_targets.update(x.path for x in o if isinstance(x, SymNode) and x.cls == 'Attribute')
+        ps.top_state = {'global_names': gn, 'registered': registered, 'attr_targets': attr_targets}
         ps.tokens = tokens
         ps.rtok = rtok
         ps.stok = stok
